@@ -146,22 +146,7 @@ impl Writer {
             }
 //@hint before#2 <<<Ok(())>>>
         proof { assert(large_descendants@ == Set::<u32>::empty()); }
-//@spec
-    requires
-        concurrent_node_ids.covers(self.index),
-        cap_of(options, self.dimensions) >= 1,
-        tree_keys_ok(old(wtxn).view(), self.index), leaves_same_len(old(wtxn).view(), self.index),
-        // `rs` (ghost) are the roots of the forest being built; the queue holds buckets of these trees, among them every oversized one
-        incr_inv(tmap(old(wtxn).view(), self.index), tmap(old(wtxn).view(), self.index), rs, large_descendants@, cap_of(options, self.dimensions)),
-        forall|k: int, id: u32| #![trigger titems(tmap(old(wtxn).view(), self.index), tn(rs[k])).contains(id)] 0 <= k < rs.len() && titems(tmap(old(wtxn).view(), self.index), tn(rs[k])).contains(id)
-            ==> old(wtxn).view().contains_key(ikey(self.index, id)),
-    ensures
-        // C01 / C15: the trees keep their items and their old nodes, no orphan is created, and no bucket of the trees exceeds the capacity any more
-        r is Ok ==> incr_inv(tmap(old(wtxn).view(), self.index), tmap(final(wtxn).view(), self.index), rs, Set::<u32>::empty(), cap_of(options, self.dimensions))
-            && tree_keys_ok(final(wtxn).view(), self.index),
-        r matches Err(e) ==> build_err(e),
-        // C07
-        same_except(old(wtxn).view(), final(wtxn).view(), self.index, true, false, false, false),
+//@specfile lib/contracts/incremental_index_large_descendants.spec
 //@end
 }
 } // verus!
